@@ -263,6 +263,7 @@ func (c *FnCtx) resetPass() {
 	c.ord = map[string]int{}
 	c.allocs = nil
 	c.localCells = nil
+	c.interiorCell = nil
 	c.condCells = nil
 	c.allocOf = map[string]ssa.Value{}
 	c.refVals = nil
